@@ -3,7 +3,7 @@ import json, os, glob, re, math
 from fractions import Fraction
 import vlib
 
-PROPS = ["C13/Props.v", "C13/PropsFloat.v"]
+PROPS = ["C13/Props.v", "C13/PropsFloat.v", "C13/Props3.v"]
 META = dict(
     text="Rocq theorems over an executable model of pkg/obitools/obiclean (D1Or0 kernel, stable sort by count, row-wise pair loop, the two "
          "worker pools as a transition system whose shared operation is the son-counter increment, atomic or read-then-write; reweighting, "
@@ -22,7 +22,15 @@ META = dict(
          "indels, all sequences over small alphabets) with 1..32 workers x repetitions through the real functions, through CLIOBIClean (also "
          "under permuted batch arrival histories) and through the built obiclean command, checks them against a direct Python oracle and "
          "against the model evaluated by vm_compute (per sample and for the whole data set), and runs the -race build: a race report whose "
-         "access is in package obiclean is raised as a violation.",
+         "access is in package obiclean is raised as a violation. Round 3: the sample table reaches the code in every form StatsOn accepts "
+         "(map of ints, map of interfaces as left by the header parser, StatsOnValues, no table at all: the attribute itself, a number, or "
+         "absent = NA, read counts from count or from a named attribute), under another attribute name, after an earlier obiclean run on the "
+         "same objects; the built command is run on the data set as a file, on stdin, as two files (also --no-order), gzip-compressed, with -o "
+         "and the short option names, on never-merged records, and with --save-graph / --save-ratio / --min-eval-rate, whose files are judged "
+         "by a direct oracle and against Model3 (theorems of Props3.v: the table of nucleotide pairs never leaves its 25 slots and reads back "
+         "what was filed, the ratio table is a code-sorted permutation of exactly the remaining distance-1 edges whose father weighs at least "
+         "the threshold, each row states the true edit father -> son, the graph file lists exactly the non-singletons, heads in blue, and every "
+         "remaining edge).",
     note="Trusted: Coq kernel + vm_compute, Go race detector, harness and generators. Go scheduler/channels/WaitGroup are modelled as "
          "nondeterministic choice of the next worker; the increment under the mutex is modelled as one indivisible step. That the real banded "
          "kernel FastLCSScore is exact inside its band is the hypothesis of C13_extended_edges_exact (checked by property C09 and, on every "
@@ -33,7 +41,17 @@ META = dict(
          "(C13_ratio_test_d2_float_exact_off_boundary, math.Pow(r,2) taken as the rounded square); samples with an edge exactly on "
          "w_son/w_father = (P/Q)^dist, dist >= 2, are left to the float oracle (counted in the evidence); math.Pow(r,3) is modelled exactly. Findings: lost son-counter updates (fixed, round 1); Load returned the batches "
          "in arrival order, which made --distance > 1 outputs differ from run to run through the tie rule (fixed, round 2). Observations (not "
-         "against C13): no reweighting after the extension; dead getters HeadCount/InternalCount/SingletonCount always return 0.")
+         "against C13): no reweighting after the extension nor after the ratio filter removed links; dead getters HeadCount/InternalCount/"
+         "SingletonCount always return 0; the rows of the --save-ratio file come in the order the Go map of samples is walked (the file differs "
+         "byte-wise from run to run, the rows are the same: compared as a multiset); a letter outside a/c/g/t is written '-' in that file. "
+         "Outside the property / not exercised: abs, max, min, minMax (graph.go) and GetCluster, ClusterMode are dead code (the cluster mode is "
+         "commented out); the panic branches of IsHead, HeadCount, InternalCount, SingletonCount, Weight need an annotation of the wrong type "
+         "written by something else than obiclean (CLIOBIClean now deletes or overwrites them before reading); the map[string]interface{} "
+         "branches of Status / Weight / GetMutation are reached only through the graph hook, never through CLIOBIClean since the stale-"
+         "annotation fix; the panic of StatsOn needs a merged table holding non-integers (malformed input); FastLCSEGFScore (end-gap-free "
+         "mode), the IUPAC branches of _samenuc and the out-of-band branches of FastLCSEGFScoreByte belong to property C09 (obiclean calls "
+         "FastLCSScore on a/c/g/t reads only: ambiguity codes at --distance > 1 are outside the statement); Merge, HasStatsOn, BioseqCount "
+         "(obiseq/merge.go) are obiuniq's (property C06); output formats and compression of the written sequences are C04's.")
 TRUSTED = ["Go race detector: absence of a report on obiclean state is taken as 'the increment is Atomic' (model parameter inc_kind)",
            "kernel_exact_in_band for the real obialign.FastLCSScore (hypothesis of C13_extended_edges_exact; discharged for the model's plain DP by "
            "C13_model_kernel_exact_in_band; for the Go kernel it is property C09's obligation and is exercised here by the distance 2/3 correspondence), "
@@ -108,7 +126,7 @@ def sample_counts(rng, samples, base=None):
 
 
 def gen_dataset(rng, kind, size):
-    samples = ["A", "B", "C"][:rng.choice([1, 1, 2, 3])]
+    samples = ["A", "B", "C", "D", "E"][:rng.choice([1, 1, 2, 3, 3, 5])]
     L = rng.choice([0, 1, 2, 3, 5, 8, 12, 20, 40])
     seqs = []
     if kind == "star":
@@ -186,6 +204,29 @@ def gen_dataset(rng, kind, size):
         for _ in range(size):
             v = mutate1(rng, rng.choice(top)) if rng.random() < 0.6 else rseq(rng, len(c))
             seqs.append((v, sample_counts(rng, samples, base=rng.choice([1, 2, 3]))))
+    elif kind == "adjacent":
+        # round 3 (lead of a seeded change): an indel right next to a substitution, P x y S versus P z S: edit distance 2
+        # (unless z = x or z = y) although the common prefix and the common suffix cover all but two / one positions
+        P, S = rseq(rng, rng.choice([0, 0, 1, 2, 5])), rseq(rng, rng.choice([0, 0, 1, 2, 5]))
+        seen = set()
+        for _ in range(size + 2):
+            x, y, z = rng.choice(ALPH), rng.choice(ALPH), rng.choice(ALPH)
+            for v in (P + x + y + S, P + z + S, P + y + x + S):
+                if v not in seen and rng.random() < 0.8:
+                    seen.add(v)
+                    seqs.append((v, sample_counts(rng, samples)))
+    elif kind == "mixedlen":
+        # round 3: very different lengths in one sample: at distance > 1 a worker's alignment buffer is reused for a long
+        # pair, then a short one, then a long one again
+        pool = [rseq(rng, n) for n in rng.sample([3, 6, 9, 14, 22, 33, 47], rng.randrange(2, 5))]
+        for p0 in pool:
+            seqs.append((p0, sample_counts(rng, samples)))
+        for _ in range(size):
+            v = rng.choice(pool)
+            for _ in range(rng.choice([1, 2, 2, 3])):
+                v = mutate1(rng, v)
+            pool.append(v)
+            seqs.append((v, sample_counts(rng, samples)))
     else:  # random families
         pool = [rseq(rng, L) for _ in range(rng.randrange(1, 4))]
         for p in pool:
@@ -206,14 +247,43 @@ def gen_dataset(rng, kind, size):
     return [dict(id="s%d" % i, seq=s, counts=c) for i, (s, c) in enumerate(seqs)]
 
 
+FORMS = ["", "", "", "iface", "stats", "attr", "attr", "attrbad"]
+RENAMES = [dict(A="A", B="B", C="C", D="D", E="E"), dict(A="7", B="NA", C="C", D="D", E="08"), dict(A="NA", B="12", C="x y", D="-1", E="E")]
+
+
 def gen_case(rng, size, workers, reps):
-    kind = rng.choice(["star", "chain", "homopolymer", "ties", "random", "random", "deepchain", "alltie", "topchain"])
-    dist = rng.choice([1, 1, 1, 1, 2, 3]) if kind != "alltie" else rng.choice([1, 2, 2, 3])
+    kind = rng.choice(["star", "chain", "homopolymer", "ties", "random", "random", "deepchain", "alltie", "topchain", "adjacent", "mixedlen"])
+    dist = rng.choice([1, 1, 1, 1, 2, 3]) if kind not in ("alltie", "mixedlen") else rng.choice([1, 2, 2, 3])
     ratio = rng.choice(RATIOS)
     c = dict(kind=kind, seqs=gen_dataset(rng, kind, rng.randrange(1, size + 1)), dist=dist, ratio=ratio,
              workers=workers, reps=reps, cli=rng.random() < 0.5, head=rng.random() < 0.2)
     if c["cli"] and rng.random() < 0.6:
         add_arrivals(rng, c)
+    # round 3: input classes around the graph core
+    variant(rng, c)
+    return c
+
+
+def variant(rng, c):
+    """round 3: how the sample table reaches the code (form / attribute name / sample names that are numbers or the NA
+    value), a letter outside a/c/g/t (distance 1 only: the LCS kernel of the extension treats ambiguity codes as
+    compatible, which is outside the statement), an earlier obiclean run on the same objects"""
+    c["form"] = rng.choice(FORMS)
+    c["tag"] = rng.choice(["", "", "pcr"])
+    ren = rng.choice(RENAMES) if c["form"].startswith("attr") or rng.random() < 0.2 else RENAMES[0]
+    for x in c["seqs"]:
+        cs = {ren[k]: v for k, v in x["counts"].items()}
+        if c["form"].startswith("attr"):              # a record that was never merged belongs to one sample
+            k = sorted(cs)[0]
+            cs = {k: cs[k]}
+        x["counts"] = cs
+    if c["dist"] == 1 and rng.random() < 0.2:
+        a = rng.choice(ALPH)
+        for x in c["seqs"]:
+            x["seq"] = x["seq"].replace(a, "n")
+        c["alphabet"] = "n for " + a
+    if c["cli"] and rng.random() < 0.3:
+        c["prior"] = dict(dist=rng.choice([1, 2]), ratio=rng.choice(RATIOS))
     return c
 
 
@@ -350,6 +420,35 @@ CORPUS = [
     dict(kind="corpus", seqs=[dict(id="x", seq="aaaaaaaa", counts={"A": 1}), dict(id="y", seq="aaccaaaa", counts={"A": 1}),
                               dict(id="z", seq="aaccaagg", counts={"A": 1})],
          dist=2, ratio=1.0, workers=[1, 4], reps=1, cli=True, head=False, batch=1, arrivals=[[0, 1, 2], [2, 1, 0], [1, 0, 2], [1, 2, 0]]),
+    # round 3: a chain three links deep in one sample, two links in the other: the weight of a son that has sons itself differs from
+    # its count (the ratio table of --save-ratio prints both)
+    dict(kind="corpus", seqs=[dict(id="k1", seq="acgtacgtac", counts={"A": 1000, "B": 5}), dict(id="k2", seq="acgtacgtaa", counts={"A": 100, "B": 50}),
+                              dict(id="k3", seq="acgtacgtta", counts={"A": 10}), dict(id="k4", seq="acgtacctta", counts={"A": 1, "B": 2})],
+         dist=1, ratio=1.0, workers=[1, 4], reps=1, cli=True, head=False),
+    # round 3: an ambiguity code in the reads (default distance): links and mutations are exact on bytes; the ratio table has no
+    # code for the letter and writes it as '-'
+    dict(kind="corpus", seqs=[dict(id="n1", seq="acgnacgn", counts={"A": 10}), dict(id="n2", seq="acgnaccn", counts={"A": 3}),
+                              dict(id="n3", seq="acgaacgn", counts={"A": 2}), dict(id="n4", seq="acgacgn", counts={"A": 1})],
+         dist=1, ratio=1.0, workers=[1, 4], reps=1, cli=True, head=False, alphabet="n for t"),
+    # round 3: the empty data set (an empty file, an empty stdin)
+    dict(kind="corpus", seqs=[], dist=1, ratio=0.5, workers=[1, 4], reps=1, cli=True, head=False),
+    # round 3 (lead): an indel right next to a substitution (P x y S / P z S) is two differences, whatever the flanks;
+    # with z = x or z = y it is one
+    dict(kind="corpus", seqs=[dict(id="l1", seq="acgtag", counts={"A": 1}), dict(id="l2", seq="accag", counts={"A": 9}),
+                              dict(id="l3", seq="ag", counts={"A": 2}), dict(id="l4", seq="c", counts={"A": 8}),
+                              dict(id="l5", seq="acgag", counts={"A": 20}), dict(id="l6", seq="ga", counts={"A": 3}),
+                              dict(id="l7", seq="t", counts={"A": 1}), dict(id="l8", seq="gt", counts={"A": 30})],
+         dist=1, ratio=1.0, workers=[1, 4], reps=1, cli=True, head=False),
+    # round 3: the records were never merged: attribute `pcr` (a number, a string, or absent = NA) and count only
+    dict(kind="corpus", seqs=[dict(id="u1", seq="acgtacgt", counts={"7": 10}), dict(id="u2", seq="acgtacct", counts={"7": 3}),
+                              dict(id="u3", seq="acgtacct", counts={"NA": 5}), dict(id="u4", seq="acgtcct", counts={"NA": 1}),
+                              dict(id="u5", seq="acgtacgg", counts={"x": 1}), dict(id="u6", seq="acgtacgt", counts={"x": 4})],
+         dist=1, ratio=0.5, workers=[1, 4], reps=1, cli=True, head=False, form="attr", tag="pcr"),
+    # round 3: obiclean run a second time on the same objects with other settings (first --distance 2 --ratio 1, then the
+    # default distance with --ratio 0.1): statuses, weights and mutations must describe the second graph only
+    dict(kind="corpus", seqs=[dict(id="p1", seq="acgtacgtaa", counts={"A": 100, "B": 5}), dict(id="p2", seq="acctaggtaa", counts={"A": 20, "B": 5}),
+                              dict(id="p3", seq="acgtacgtac", counts={"A": 30, "B": 1}), dict(id="p4", seq="acgtacgtcc", counts={"A": 2})],
+         dist=1, ratio=0.1, workers=[1, 4], reps=1, cli=True, head=False, form="stats", prior=dict(dist=2, ratio=1.0)),
 ]
 
 
@@ -450,7 +549,8 @@ def expected_sample(nodes, dist, ratio, ids=None, info=None):
                         info["boundary"] = True
                     if w[i] * q ** d == w[j] * p ** d:
                         info["on_boundary"] = info.get("on_boundary", 0) + 1
-                if not (w[i] / w[j] <= go_pow(ratio, d)):
+                # (a father of weight 0 - two records of 0 reads linked by the extension - gives NaN or +Inf in Go: test false)
+                if not (w[j] != 0 and w[i] / w[j] <= go_pow(ratio, d)):
                     del edges[i][j]
                     sons[j] -= 1
     res = {}
@@ -679,66 +779,355 @@ def parse_fasta_annot(text):
     return sorted(res, key=lambda x: x["id"])
 
 
+CSV_HEADER = "Sample,Father_id,Father_status,From,To,Weight_from,Weight_to,Count_from,Count_to,Position,length,A,C,G,T"
+CMD = dict(runs=0, kinds={}, ratio_rows=0, gml_nodes=0, gml_edges=0, non_acgt_rows=0, ratio_vs_model=0, gml_vs_model=0, unmerged_vs_model=0)
+
+
+def tag_of(c):
+    return c.get("tag") or "sample"
+
+
+def attr_value(k):
+    """the value of the sample attribute of a never-merged record: a JSON number when the name is one"""
+    return int(k) if re.fullmatch(r"[1-9][0-9]*", k) else k
+
+
+def fasta_records(c, form="merged", stale=False, weight_attr=None):
+    """the FASTA records of the data set. merged: count + merged_<tag> table (what obiuniq -m writes); attr: the
+    attribute <tag> itself + count (records of one sample each; nothing at all for the NA sample, no count when it is 1)"""
+    tag = tag_of(c)
+    recs = []
+    for x in c["seqs"]:
+        if form == "attr":
+            (k, v), = x["counts"].items()
+            a = {}
+            if k != "NA":
+                a[tag] = attr_value(k)
+            if weight_attr:                        # --sample <tag>:<attribute holding the number of reads>; absent = 0 reads
+                if not x.get("noweight"):
+                    a[weight_attr] = v
+                a["count"] = 1 + len(recs) % 3
+            elif v != 1 or x["id"][-1:] in "02468":
+                a["count"] = v
+        else:
+            a = {"count": sum(x["counts"].values()), "merged_" + tag: x["counts"]}
+        if stale:
+            a.update(obiclean_status={k: "i" for k in x["counts"]}, obiclean_weight={k: 99999 for k in x["counts"]},
+                     obiclean_mutation={"ghost_father": "(a)->(c)@1"}, obiclean_head=False, obiclean_headcount=77,
+                     obiclean_internalcount=77, obiclean_singletoncount=77, obiclean_samplecount=77)
+        recs.append(">%s %s\n%s\n" % (x["id"], json.dumps(a), x["seq"]))
+    return recs
+
+
+def split_case(c, weight_attr=None):
+    """the same reads before any merge: one record per (sequence, sample); with a weight attribute, every seventh record
+    lacks it (it then stands for 0 reads; default distance only: at --distance > 1 two records of 0 reads get linked and
+    the ratio test divides 0 by 0)"""
+    seqs = []
+    for x in c["seqs"]:
+        for k in sorted(x["counts"]):
+            if weight_attr and len(seqs) % 7 == 3 and c["dist"] == 1:
+                seqs.append(dict(id="%s.%d" % (x["id"], len(seqs)), seq=x["seq"], counts={k: 0}, noweight=True))
+            else:
+                seqs.append(dict(id="%s.%d" % (x["id"], len(seqs)), seq=x["seq"], counts={k: x["counts"][k]}))
+    return dict(c, seqs=seqs)
+
+
+def per_sample_expect(case):
+    return {k: expected_sample(v, case["dist"], case["ratio"]) for k, v in sample_nodes(case).items()}
+
+
+def oracle_ratio_csv(case, text, min_eval):
+    """--save-ratio: one row per remaining distance-1 edge whose father weighs at least --min-eval-rate; compared as a
+    multiset (the order of the rows is not part of the property); the (From, To, Position) of a row is judged by what it
+    means: applied to the father's sequence it must give a son with the row's weight and count"""
+    why = []
+    lines = text.splitlines()
+    if not lines or lines[0] != CSV_HEADER:
+        return ["ratio table: header %r" % (lines[:1],)]
+    seqof = {s["id"]: s["seq"] for s in case["seqs"]}
+    want = {}
+    for name, (res, _) in per_sample_expect(case).items():
+        for sid, x in res.items():
+            for fid, d in x["edges"].items():
+                f = res[fid]
+                if d == 1 and f["weight"] >= min_eval:
+                    fs = seqof[fid]
+                    key = (name, fid, f["status"], f["weight"], x["weight"], f["count"], x["count"], len(fs),
+                           fs.count("a"), fs.count("c"), fs.count("g"), fs.count("t"), seqof[sid])
+                    want[key] = want.get(key, 0) + 1
+    got = {}
+    for ln in lines[1:]:
+        f = ln.split(",")
+        if len(f) != 15 or f[1] not in seqof:
+            return ["ratio table: row %r" % ln]
+        try:
+            nums = [int(v) for v in f[5:]]
+        except ValueError:
+            return ["ratio table: row %r" % ln]
+        fs = seqof[f[1]]
+        kb = (f[0], f[1], f[2], nums[0], nums[1], nums[2], nums[3], nums[5], nums[6], nums[7], nums[8], nums[9])
+        cands = [apply_mut(fs, f[3], f[4], nums[4] + 1)]
+        if "-" in (f[3], f[4]) and case.get("alphabet"):
+            # a letter outside a/c/g/t has no code in the 5 x 5 table of nucleotide pairs: it is written as '-'
+            for a1, a2 in ((f[3].replace("-", "n"), f[4]), (f[3], f[4].replace("-", "n")), ("n", "n")):
+                cands.append(apply_mut(fs, a1, a2, nums[4] + 1))
+        son = next((x for x in cands if x is not None and kb + (x,) in want), cands[0])
+        if son is not cands[0]:
+            CMD["non_acgt_rows"] += 1
+        key = kb + (son,)
+        got[key] = got.get(key, 0) + 1
+    CMD["ratio_rows"] += len(lines) - 1
+    if got != want:
+        extra = [k for k in got if got[k] != want.get(k, 0)][:3]
+        miss = [k for k in want if want[k] != got.get(k, 0)][:3]
+        why.append("ratio table (--min-eval-rate %d): rows not expected / with another multiplicity %s; expected rows missing %s" % (min_eval, extra, miss))
+    return why
+
+
+GML_NODE = re.compile(r'node \[ id (\d+)\s+graphics \[\s+type "(\w+)"\s+fill "(#[0-9A-F]+)"\s+h (-?\d+)\s+w (-?\d+)\s+\]\s+weight (-?\d+)\s+\]')
+GML_EDGE = re.compile(r'edge \[ source (\d+)\s+target (\d+)\s+color "(#[0-9A-F]+)"\s+label "(-?\d+)"\s+\]')
+
+
+def parse_gml(text):
+    nodes = [(int(m[0]), m[1], m[2], int(m[3]), int(m[4]), int(m[5])) for m in GML_NODE.findall(text)]
+    edges = [(int(m[0]), int(m[1]), m[2], int(m[3])) for m in GML_EDGE.findall(text)]
+    return nodes, edges
+
+
+def expected_gml(res, order, min_eval):
+    pos = {i: k for k, i in enumerate(order)}
+    nodes, edges = [], []
+    for i in order:
+        x = res[i]
+        if x["edges"] or x["sons"] > 0:
+            h = 3 * math.isqrt(x["count"])
+            nodes.append((pos[i], "circle" if x["count"] >= min_eval else "rectangle", "#0000FF" if x["sons"] > 0 and not x["edges"] else "#00FF00",
+                          h, h, x["count"]))
+        for fa, d in x["edges"].items():
+            edges.append((pos[i], pos[fa], "#FF0000" if d > 1 else "#00FF00", d))
+    return sorted(nodes), sorted(edges)
+
+
+def oracle_gml(case, gdir, min_eval):
+    """--save-graph: one file per sample; the nodes that have a father or a son (count, head colour, shape by
+    --min-eval-rate) and every remaining edge with its distance.  Node numbers are positions in the count-sorted
+    sample: compared exactly when no two sequences of the sample have the same count, else up to the numbering"""
+    why, parsed = [], {}
+    exp = per_sample_expect(case)
+    files = sorted(os.listdir(gdir)) if os.path.isdir(gdir) else None
+    if files != sorted(k + ".gml" for k in exp):
+        return ["graph files %s expected one per sample %s" % (files, sorted(exp))], parsed
+    for name, (res, order) in exp.items():
+        text = open(os.path.join(gdir, name + ".gml")).read()
+        nodes, edges = parse_gml(text)
+        parsed[name] = (nodes, edges)
+        CMD["gml_nodes"] += len(nodes)
+        CMD["gml_edges"] += len(edges)
+        if text.count("node [") != len(nodes) or text.count("edge [") != len(edges) or ('graph for sample %s"' % name) not in text:
+            why.append("graph file of sample %s: unreadable node / edge block or wrong title" % name)
+            continue
+        wn, we = expected_gml(res, order, min_eval)
+        counts = [res[i]["count"] for i in order]
+        if len(set(counts)) == len(counts):
+            ok = sorted(nodes) == wn and sorted(edges) == we
+        else:
+            at = {n[0]: n[1:] for n in nodes}
+            wat = {n[0]: n[1:] for n in wn}
+            ok = (len(at) == len(nodes) and all(e[0] in at and e[1] in at and e[0] < e[1] for e in edges)
+                  and sorted(at.values()) == sorted(wat.values())
+                  and sorted((at[e[0]], at[e[1]], e[2], e[3]) for e in edges if e[0] in at and e[1] in at) == sorted((wat[e[0]], wat[e[1]], e[2], e[3]) for e in we))
+        if not ok:
+            why.append("graph file of sample %s (--min-eval-rate %d): nodes %s edges %s expected %s %s" % (name, min_eval, sorted(nodes)[:8], sorted(edges)[:8], wn[:8], we[:8]))
+    return why, parsed
+
+
+def model_terms_tables(case, min_eval, csv_text, gml):
+    """Gallina cases for Model3: per sample, the rows of the ratio table and the graph file vs the model (a/c/g/t only,
+    no ratio-boundary sample, graph numbering only without count ties)"""
+    rterms, gterms = [], []
+    if case.get("alphabet") or any(len(v) > 60 for v in sample_nodes(case).values()):
+        return rterms, gterms
+    p, q = ratio_pq(case["ratio"])
+    idx = {s["id"]: k for k, s in enumerate(case["seqs"])}
+    rows = {}
+    for ln in (csv_text or "").splitlines()[1:]:
+        f = ln.split(",")
+        rows.setdefault(f[0], []).append(f)
+    for name, nodes in sorted(sample_nodes(case).items()):
+        info = {}
+        expected_sample(nodes, case["dist"], case["ratio"], None, info)
+        if info.get("boundary"):
+            continue
+        ins = "[" + "; ".join("mkn %d %s %d" % (idx[i], vlib.bytes_coq(s.encode()), c) for i, s, c in nodes) + "]"
+        if csv_text is not None:
+            rr = "; ".join("mkrr %d %s %d%%N %d%%N %s %s %s %s (%s) %s %s %s %s %s" % (
+                idx[f[1]], ST.get(f[2], "SS"), ord(f[3]), ord(f[4]), f[5], f[6], f[7], f[8], f[9], f[10], f[11], f[12], f[13], f[14]) for f in rows.get(name, []))
+            rterms.append("mkrcase %s %d %d %d %d [%s]" % (ins, case["dist"], p, q, min_eval, rr))
+        if gml is not None and name in gml and len({c for _, _, c in nodes}) == len(nodes):
+            gn, ge = gml[name]
+            gterms.append("mkgcase %s %d %d %d %d [%s] [%s]" % (
+                ins, case["dist"], p, q, min_eval,
+                "; ".join("mkgn %d %s %s (%d) (%d) (%d)" % (n[0], "true" if n[1] == "circle" else "false", "true" if n[2] == "#0000FF" else "false", n[3], n[4], n[5]) for n in gn),
+                "; ".join("mkge %d %d %s (%d)" % (e[0], e[1], "true" if e[2] == "#FF0000" else "false", e[3]) for e in ge)))
+    return rterms, gterms
+
+
+IMPORTS3 = "From Coq Require Import ZArith NArith List. Import ListNotations. Open Scope Z_scope.\nFrom OBI.C13 Require Import Model Model2 Model3."
+
+
 def cli_drive(ctx, cases, obs, broken, max_cases):
-    """run the built `obiclean` command (options parsed by the real option parser) with several --max-cpu and compare
-    the annotations it writes with those of the CLIOBIClean run of the harness (already checked by the oracle)"""
+    """the built `obiclean` command (options parsed by the real option parser).  Every run is judged by the direct oracle on the
+    annotations it writes and, for the plain deliveries, by equality with the CLIOBIClean run of the harness.  Round 3: the
+    data set delivered as a file, on stdin, as two files (also --no-order at distance 1), gzip-compressed, written with -o;
+    short option names; never-merged records (attribute + count; a number; absent = NA); records carrying the obiclean_*
+    annotations of an earlier run; --save-graph / --save-ratio / --min-eval-rate judged against the expected graph and Model3"""
+    import gzip, shutil
     bindir, err = ctx.build_cmds(["obiclean"])
     if bindir is None:
         broken.append(dict(kind="command-build", detail=err))
         return 0
+    exe = os.path.join(bindir, "obiclean")
     wd = os.path.join(vlib.BUILD, "c13_cli")
+    shutil.rmtree(wd, ignore_errors=True)
     os.makedirs(wd, exist_ok=True)
+    rng = ctx.rng
     n = 0
-    order = sorted(range(len(cases)), key=lambda i: (cases[i]["dist"] != 1, i))[:] if max_cases <= 10 else range(len(cases))
+    rterms, gterms, rowner, gowner, dterms, downer = [], [], [], [], [], []
+    order = sorted(range(len(cases)), key=lambda i: (cases[i]["kind"] != "corpus", i))
+    ndist = {}
     for ci in order:
         c, o = cases[ci], obs[ci]
         if n >= max_cases:
             break
-        if not c.get("cli") or o.get("kind") != "ok" or any(len(x["seq"]) == 0 for x in c["seqs"]):
+        if not c.get("cli") or o.get("kind") != "ok" or any(len(x["seq"]) == 0 for x in c["seqs"]) or len(c["seqs"]) > 150:
+            continue
+        if c["kind"] != "corpus" and ndist.get(c["dist"], 0) >= max(2, max_cases // 2):
             continue
         ref = [o["distinct"][r["r"]] for r in o["runs"] if r["path"] == "cli"]
         if not ref or ref[0].get("panic"):
             continue
-        want = [{k: v for k, v in a.items() if k != "getters"} for a in ref[0]["annot"]]
+        ndist[c["dist"]] = ndist.get(c["dist"], 0) + 1
+        want = [{k: v for k, v in a.items() if k != "getters"} for a in ref[0].get("annot") or []]
         n += 1
+        tag = tag_of(c)
+        recs = fasta_records(c)
         fa = os.path.join(wd, "in.fasta")
-        with open(fa, "w") as f:
-            for x in c["seqs"]:
-                f.write(">%s %s\n%s\n" % (x["id"], json.dumps(dict(count=sum(x["counts"].values()), merged_sample=x["counts"])), x["seq"]))
-        base = []
-        if c["ratio"] != 1.0:
-            base += ["--ratio", repr(c["ratio"])]
-        if c.get("head"):
-            base += ["--head"]
-        variants = [base + ["--distance", str(c["dist"])]]
-        if c["dist"] == 1:
-            variants.append(base)                 # distance 1 is the default: also without the option
-        # the same records carrying the obiclean_* annotations of an earlier run (obiclean applied to its own output, e.g.
-        # with another ratio): what is written must describe THIS run's graph, not the stale values
+        open(fa, "w").write("".join(recs))
         fa_stale = os.path.join(wd, "in_stale.fasta")
-        with open(fa_stale, "w") as f:
-            for x in c["seqs"]:
-                stale = dict(count=sum(x["counts"].values()), merged_sample=x["counts"],
-                             obiclean_status={k: "i" for k in x["counts"]}, obiclean_weight={k: 99999 for k in x["counts"]},
-                             obiclean_mutation={"ghost_father": "(a)->(c)@1"}, obiclean_head=False, obiclean_headcount=77,
-                             obiclean_internalcount=77, obiclean_singletoncount=77, obiclean_samplecount=77)
-                f.write(">%s %s\n%s\n" % (x["id"], json.dumps(stale), x["seq"]))
-        runs_ = [(v, k, fa) for v in variants for k in (["--force-one-cpu"], ["--max-cpu", "2"], ["--max-cpu", "16"])]
-        runs_.append((variants[0], ["--max-cpu", "2"], fa_stale))
-        for opts, cpu, fa_ in runs_:
-            rc, out, err, dt = vlib.sh([os.path.join(bindir, "obiclean")] + cpu + opts + [fa_], timeout=120)
-            got = None
+        open(fa_stale, "w").write("".join(fasta_records(c, stale=True)))
+        k = rng.randrange(0, len(recs) + 1)
+        p1, p2 = os.path.join(wd, "p1.fasta"), os.path.join(wd, "p2.fasta")
+        open(p1, "w").write("".join(recs[:k]))
+        open(p2, "w").write("".join(recs[k:]))
+        gz = os.path.join(wd, "in.fasta.gz")
+        with gzip.open(gz, "wt") as f:
+            f.write("".join(recs))
+        wattr = rng.choice([None, None, "reads"])
+        c2 = split_case(c, wattr)
+        fu = os.path.join(wd, "in_unmerged.fasta")
+        open(fu, "w").write("".join(fasta_records(c2, form="attr", weight_attr=wattr)))
+        long_ = (["--ratio", repr(c["ratio"])] if c["ratio"] != 1.0 else []) + (["--head"] if c.get("head") else []) + (["--sample", tag] if tag != "sample" else [])
+        short = (["-r", repr(c["ratio"])] if c["ratio"] != 1.0 else []) + (["-H"] if c.get("head") else []) + (["-s", tag] if tag != "sample" else [])
+        dl, ds_ = ["--distance", str(c["dist"])], ["-d", str(c["dist"])]
+        outf, gdir, rcsv = os.path.join(wd, "out.fasta"), os.path.join(wd, "graphs"), os.path.join(wd, "ratio.csv")
+        # --min-eval-rate: preferably a value that separates a father's weight from its count (the threshold is on the weight)
+        cand = sorted({x["weight"] for res, _ in per_sample_expect(c).values() for x in res.values() if x["weight"] > x["count"]}
+                      | {x["weight"] + 1 for res, _ in per_sample_expect(c).values() for x in res.values() if x["sons"] > 0})
+        mer = rng.choice(cand) if cand and rng.random() < 0.7 else rng.choice([1, 2, 5, 50, None])
+        nohead = [x for x in long_ if x != "--head"]
+        # (label, argv, stdin, case judged by the oracle, equal to the harness run?, output file)
+        runs_ = [("file/one-cpu", ["--force-one-cpu"] + long_ + dl + [fa], None, c, True, None),
+                 ("file/2", ["--max-cpu", "2"] + long_ + dl + [fa], None, c, True, None),
+                 ("file/16", ["--max-cpu", "16"] + long_ + dl + [fa], None, c, True, None),
+                 ("stale-annotations", ["--max-cpu", "2"] + long_ + dl + [fa_stale], None, c, True, None),
+                 ("stdin", ["--max-cpu", "3"] + long_ + dl, "".join(recs).encode(), c, True, None),
+                 ("two-files", ["--max-cpu", "4"] + long_ + dl + [p1, p2], None, c, True, None),
+                 ("gzip", ["--max-cpu", "2"] + long_ + dl + [gz], None, c, True, None),
+                 ("short-options/-o", ["--max-cpu", "5"] + short + ds_ + ["-o", outf, fa], None, c, True, outf),
+                 ("never-merged-records" + ("/weight-attribute" if wattr else ""),
+                  ["--max-cpu", "4"] + [x for x in long_ if x not in ("--sample", tag)] + (["--sample", tag + ":" + wattr] if wattr else ["--sample", tag]) + dl + [fu], None, c2, False, None),
+                 ("save-graph/save-ratio", ["--max-cpu", "4"] + nohead + dl + ["--min-eval-rate", "1", "--save-graph", gdir, "--save-ratio", rcsv, fa],
+                  None, dict(c, head=False), not c.get("head"), None),
+                 ("save-graph/save-ratio/min-eval-rate", ["--max-cpu", "4"] + nohead + dl + (["--min-eval-rate", str(mer)] if mer is not None else [])
+                  + ["--save-graph", gdir, "--save-ratio", rcsv, fa], None, dict(c, head=False), not c.get("head"), None)]
+        if c["dist"] == 1:
+            runs_.append(("default-distance", ["--max-cpu", "2"] + long_ + [fa], None, c, True, None))
+            runs_.append(("two-files/no-order", ["--max-cpu", "4", "--no-order"] + long_ + [p2, p1], None, c, True, None))
+        for label, argv, inp, cj, same, of in runs_:
+            for f in (outf, rcsv):
+                if os.path.exists(f):
+                    os.remove(f)
+            shutil.rmtree(gdir, ignore_errors=True)
+            if label.endswith("min-eval-rate"):
+                os.makedirs(gdir)                  # the directory of the graph files may exist already
+            rc, out, err, dt = vlib.sh([exe] + argv, timeout=120, inp=inp)
+            CMD["runs"] += 1
+            CMD["kinds"][label] = CMD["kinds"].get(label, 0) + 1
+            got, why = None, []
             if rc == 0:
                 try:
-                    got = [{k: v for k, v in a.items() if k != "seq"} for a in parse_fasta_annot(out)]
+                    if of:
+                        out = open(of).read()
+                    got = parse_fasta_annot(out)
+                    seqs_ok = sorted((a["id"], a["seq"]) for a in got) == sorted((x["id"], x["seq"]) for x in cj["seqs"] if a_in(x["id"], got))
+                    if not seqs_ok:
+                        why.append("output sequences differ from the input")
+                    got = [{k: v for k, v in a.items() if k != "seq"} for a in got]
                 except Exception as e:
-                    err = "unparsable output: %r" % e
-            if got != want:
-                ctx.violation("cli_%d%s" % (ci, "_stale" if fa_ == fa_stale else ""), dict(property="C13", kind="command-output", case=c, argv=["obiclean"] + cpu + opts,
-                                                  input="records carrying obiclean_* annotations of an earlier run" if fa_ == fa_stale else "plain records",
-                                                  rc=rc, stderr=err[-400:], got=got, expected=want))
+                    why.append("unparsable output: %r" % e)
+            else:
+                why.append("exit status %s" % rc)
+            if got is not None:
+                why += check_result(cj, dict(annot=got), "cli")
+                if same and got != want and not why:
+                    why.append("annotations differ from those of the in-process CLIOBIClean run")
+            if label.startswith("never-merged-records") and got is not None and not why and not cj.get("alphabet"):
+                t = ds_term(cj, dict(annot=got))
+                if t:
+                    dterms.append(t)
+                    downer.append(ci)
+            if label.startswith("save-graph") and rc == 0:
+                m_ = 1 if label == "save-graph/save-ratio" else 1000 if mer is None else mer
+                csv_text = open(rcsv).read() if os.path.exists(rcsv) else ""
+                why += oracle_ratio_csv(cj, csv_text, m_)
+                gwhy, parsed = oracle_gml(cj, gdir, m_)
+                why += gwhy
+                rt, gt = model_terms_tables(cj, m_, csv_text, parsed)
+                rterms += rt; rowner += [ci] * len(rt)
+                gterms += gt; gowner += [ci] * len(gt)
+            if why:
+                ctx.violation("cli_%d_%s" % (ci, re.sub(r"\W+", "_", label)), dict(
+                    property="C13", kind="command-output", case=c, delivery=label, argv=["obiclean"] + argv[:-1] + [os.path.basename(argv[-1])],
+                    input=("never-merged records: " + "".join(fasta_records(c2, form="attr", weight_attr=wattr))[:1500]) if cj is c2 else "the case as FASTA with the merged_%s table" % tag,
+                    rc=rc, stderr=err[-400:], why=why[:6], got=got if got is None or len(got) < 40 else got[:40], expected_in_process=want if same else None))
                 return n
+    if dterms:
+        CMD["unmerged_vs_model"] = len(dterms)
+        bad, err = ctx.correspond("cmd_unmerged", IMPORTS, dterms, fn="mismatches_ds", shard=8)
+        if bad is None:
+            broken.append(dict(kind="correspondence", detail=err))
+        elif bad:
+            broken.append(dict(kind="correspondence", name="corr:C13/never-merged-records", first_diverging_case=split_case(cases[downer[bad[0]]], "reads"), n_diverging=len(bad)))
+    if rterms:
+        CMD["ratio_vs_model"] = len(rterms)
+        bad, err = ctx.correspond("cmd_ratio", IMPORTS3, rterms, fn="mismatches_ratio", shard=25)
+        if bad is None:
+            broken.append(dict(kind="correspondence", detail=err))
+        elif bad:
+            broken.append(dict(kind="correspondence", name="corr:C13/ratio-table", first_diverging_case=cases[rowner[bad[0]]], term=rterms[bad[0]][:3000], n_diverging=len(bad)))
+    if gterms:
+        CMD["gml_vs_model"] = len(gterms)
+        bad, err = ctx.correspond("cmd_gml", IMPORTS3, gterms, fn="mismatches_gml", shard=25)
+        if bad is None:
+            broken.append(dict(kind="correspondence", detail=err))
+        elif bad:
+            broken.append(dict(kind="correspondence", name="corr:C13/graph-files", first_diverging_case=cases[gowner[bad[0]]], term=gterms[bad[0]][:3000], n_diverging=len(bad)))
     return n
+
+
+def a_in(i, got):
+    return any(a["id"] == i for a in got)
 
 
 # ----------------------------------------------------------------------------- main
@@ -828,7 +1217,7 @@ def evaluate(ctx, cases, broken, label, corr=True, timeout=None):
                                    n_diverging=len(dbad)))
         terms, owner = [], []
         for i, (c, o) in enumerate(zip(cases, obs)):
-            if o.get("kind") != "ok" or max(len(v) for v in sample_nodes(c).values()) > 80:
+            if o.get("kind") != "ok" or max((len(v) for v in sample_nodes(c).values()), default=0) > 80:
                 continue
             rs = sorted({r["r"] for r in o["runs"] if r["path"] == "graph"})
             for r in rs[:2]:
@@ -892,9 +1281,18 @@ def run(ctx, broken):
     ctx.cov["evaluations"] = sum(len(o.get("runs", [])) for o in obs)
     ctx.cov["exhaustive"] = "all ordered pairs of sequences over {a,c} up to length %d%s as one sample (edges, statuses, weights)" % (
         4 if quick else 6, "" if quick else ", over {a,c,g} up to length 4, over {a,c,g,t} up to length 3 (distance 2)")
-    ctx.cov["command_runs"] = cli_drive(ctx, cases, obs, broken, 6 if quick else 60)
+    ctx.cov["command_cases"] = cli_drive(ctx, cases, obs, broken, 26 if quick else 80)
+    ctx.cov["command_runs"] = CMD["runs"]
+    ctx.cov["command_runs_by_delivery"] = CMD["kinds"]
+    ctx.cov["save_ratio_rows_judged"] = CMD["ratio_rows"]
+    ctx.cov["save_ratio_rows_with_a_letter_outside_acgt_written_as_gap"] = CMD["non_acgt_rows"]
+    ctx.cov["save_graph_nodes_edges_judged"] = [CMD["gml_nodes"], CMD["gml_edges"]]
+    ctx.cov["save_ratio_samples_vs_model"] = CMD["ratio_vs_model"]
+    ctx.cov["save_graph_samples_vs_model"] = CMD["gml_vs_model"]
+    ctx.cov["never_merged_data_sets_vs_model"] = CMD["unmerged_vs_model"]
     nontrivial = set()
     dist = {}
+    classes = {}
     for c, o in zip(cases, obs):
         ne = 0
         if o.get("kind") == "ok" and o["distinct"] and o["distinct"][0].get("graph"):
@@ -903,13 +1301,20 @@ def run(ctx, broken):
             nontrivial.add(json.dumps([c["seqs"], c["dist"], c["ratio"]], sort_keys=True))
         k = "%s/d%d/r%s/%s" % (c["kind"], c["dist"], c["ratio"], "edges" if ne else "noedge")
         dist[k] = dist.get(k, 0) + 1
+        for k in ("form:" + (c.get("form") or "merged-table"), "attribute:" + tag_of(c), "letters:" + (c.get("alphabet") or "acgt"),
+                  "earlier-run-on-the-same-objects:" + ("yes" if c.get("prior") else "no"),
+                  "sample-names:" + ("number/NA" if any(re.fullmatch(r"\d+|NA", k_) for x in c["seqs"] for k_ in x["counts"]) else "plain")):
+            classes[k] = classes.get(k, 0) + 1
     ctx.cov["distinct_nontrivial"] = len(nontrivial)
     ctx.cov["rule"] = ("data sets: stars, chains, deep chains with leaves, homopolymer indel families, abundance ties (also all counts equal), "
-                       "most abundant sequences variants of each other, large samples (>= 32 x workers sequences), random families over 1-3 samples; "
+                       "most abundant sequences variants of each other, large samples (>= 32 x workers sequences), indel next to a substitution, very different "
+                       "lengths in one sample, the empty data set, random families over 1-5 samples; sample table as map / interface map / StatsOnValues / "
+                       "bare attribute (number, string, absent), attribute sample or pcr, a letter outside a/c/g/t (distance 1), an earlier run on the same objects; "
                        "distance 1..3, ratio 1/0.5/0.25/0.75/0.125/0.1/0.05/0.2/0.3/0.7 (all in the Coq correspondence); batch arrival histories; each built with several worker counts in 1..32 x repetitions "
                        "through the hook and CLIOBIClean; evaluations = graph builds; non-trivial = the graph has at least one edge; "
                        "distinct = distinct (data set, distance, ratio)")
     ctx.cov["distribution"] = dist
+    ctx.cov["input_classes"] = classes
     ctx.cov["worker_counts"] = wl
     ctx.samples = [dict(case=c, result=(o["distinct"][0] if o.get("distinct") else o)) for c, o in list(zip(cases, obs))[:2]]
     ctx.cov["model_vs_impl_mismatches"] = len(mism)
@@ -953,6 +1358,13 @@ def replay(ctx, rp):
     print("replay: %d sequences, dist %s ratio %s workers %s x %s" % (len(c["seqs"]), c["dist"], c["ratio"], c["workers"], c["reps"]))
     print("  distinct results:", len(o.get("distinct", [])), "| oracle:", [k for k, _ in oracle(c, o)] or "ok",
           "| model-mismatch" if mism else "| model-agrees")
+    if rp.get("kind") == "command-output":
+        before = len(ctx.violations)
+        broken = []
+        n = cli_drive(ctx, [dict(c, cli=True)], obs, broken, 1)
+        print("  command runs: %d (%s) | %s" % (CMD["runs"], ", ".join(sorted(CMD["kinds"])),
+                                               "violation again: " + ctx.violations[-1] if len(ctx.violations) > before else
+                                               "broken: %s" % broken if broken else "all deliveries agree with the oracle and the model"))
     if rp.get("kind") == "data-race":
         rb, err = ctx.build_harness(race=True)
         rel, other, rerr = race_reports(ctx, rb, [c])
